@@ -138,7 +138,7 @@ pub fn run_history(h: &History) -> (HistStats, Option<(String, String)>) {
                 Op::Save(s, v) => {
                     real.save(*s, *v);
                     m.save(*s, *v);
-                    *written.last_mut().unwrap() |= 1 << s;
+                    *written.last_mut().unwrap() |= 1u32 << (s % 32);
                 }
                 Op::AuxPush(v) => {
                     real.stack_push(*v);
@@ -314,9 +314,67 @@ fn gen_deep_commit_history(rng: &mut Rng) -> History {
     History { n_slots, max_stack: 1_000_000, ops: legal_ops }
 }
 
+/// Wide and long histories: far more slots than the property's own bound of three (a pattern with
+/// thirty groups has more than sixty), with the writes concentrated on a handful of slots that
+/// include the first, the last and the ones next to multiples of 64 — where any per-slot bookkeeping
+/// packed into machine words (bitmaps, small-vector spill-over) changes representation — and two to
+/// five times as many operations as the ordinary histories.
+fn gen_wide_history(rng: &mut Rng) -> History {
+    let n_slots = *rng.pick(&[8usize, 17, 33, 63, 64, 65, 66, 127, 128, 129, 130, 200]);
+    let mut hot: Vec<usize> = vec![0, n_slots - 1];
+    for b in [63usize, 64, 65, 127, 128] {
+        if b < n_slots && rng.chance(2, 3) {
+            hot.push(b);
+        }
+    }
+    for _ in 0..rng.range(1, 4) {
+        hot.push(rng.below(n_slots));
+    }
+    let max_stack = if rng.chance(1, 4) { rng.range(3, 12) } else { 1_000_000 };
+    let len = rng.range(40, 300);
+    let mut w = [6usize, 4, 10, 2, 2, 3, 3, 1];
+    for x in w.iter_mut() {
+        if rng.chance(1, 5) {
+            *x = 0;
+        } else if rng.chance(1, 4) {
+            *x *= 3;
+        }
+    }
+    w[0] = w[0].max(4);
+    w[2] = w[2].max(4);
+    let mut m = Model::new(n_slots, max_stack);
+    let mut ops = Vec::new();
+    let mut tries = 0;
+    while ops.len() < len && tries < len * 10 {
+        tries += 1;
+        let op = match rng.weighted(&w) {
+            0 => Op::Push(rng.below(4), rng.below(4)),
+            1 => Op::Pop,
+            2 => {
+                let slot = if rng.chance(5, 6) { *rng.pick(&hot) } else { rng.below(n_slots) };
+                Op::Save(slot, rng.below(5))
+            }
+            3 => Op::AuxPush(rng.below(3)),
+            4 => Op::AuxPop,
+            5 => Op::EnterAtomic,
+            6 => Op::CommitAtomic,
+            _ => Op::Cut(rng.below(m.depth() + 1)),
+        };
+        if !legal(&op, &m) {
+            continue;
+        }
+        advance(&mut m, &op);
+        ops.push(op);
+    }
+    History { n_slots, max_stack, ops }
+}
+
 pub fn gen_history(rng: &mut Rng, thorough: bool) -> History {
     if rng.chance(1, 12) {
         return gen_deep_commit_history(rng);
+    }
+    if rng.chance(1, 16) {
+        return gen_wide_history(rng);
     }
     // the property's own bound is 3 slots and 3 values; the thorough tier also varies the width
     let n_slots = if thorough && rng.chance(1, 3) { rng.range(1, 5) } else { 3 };
@@ -1091,7 +1149,7 @@ pub fn run(opts: &Opts) -> i32 {
             level: "exploration",
             evaluations: agg.hist + agg.prog_cases + agg.prog_faulted,
             distinct_nontrivial: (hist_nt.len() + prog_nt.len()) as u64,
-            rule: "histories: seeded legal operation sequences (len 5..60/120, 3 slots, 3 values, swarm weights, capacity 2..8 in a third of runs; one in twelve is a large-commit history: one or two nested groups over 8..40 alternatives that each write most of 3..6 slots, the commit, then abandoning what is older; plus the fixed wrap-window histories around 2^8 and 2^16 quiet operations); non-trivial = contains a commit discarding >=2 alternatives that wrote the same slot, or a rollback after a commit that changes a slot; distinct by hash of the operation list. VM cases: (pattern,text,pos) on the backtracking VM, non-trivial = at least one commit discarded an alternative or a negative look-around unwound; distinct by hash of the triple; besides the State-level rules, every result is checked for a group inside a negative look-around being set".into(),
+            rule: "histories: seeded legal operation sequences (len 5..60/120, 3 slots, 3 values, swarm weights, capacity 2..8 in a third of runs; one in twelve is a large-commit history: one or two nested groups over 8..40 alternatives that each write most of 3..6 slots, the commit, then abandoning what is older; one in sixteen is a wide history: 8..200 slots with the writes concentrated on the first, the last and the slots next to 64 and 128, 40..300 operations, 5 values; plus the fixed wrap-window histories around 2^8 and 2^16 quiet operations); non-trivial = contains a commit discarding >=2 alternatives that wrote the same slot, or a rollback after a commit that changes a slot; distinct by hash of the operation list. VM cases: (pattern,text,pos) on the backtracking VM, non-trivial = at least one commit discarded an alternative or a negative look-around unwound; distinct by hash of the triple; besides the State-level rules, every result is checked for a group inside a negative look-around being set".into(),
             samples,
             extra,
             assumptions: vec![
